@@ -438,7 +438,7 @@ func LocPrecedence(p *core.Prog, r *core.Report) {
 				which = fmt.Sprint(v)
 			}
 		}
-		key := "gts.AsLocator|case " + which
+		key := "gts.AsLocator|case=" + which
 		var calls []string
 		var sliceOK = true
 		for _, st := range cl.Body {
